@@ -290,8 +290,26 @@ def gen_install():
                 r'if \((\w+) != messageHandler\) \{ qInstallMessageHandler\(\1\); \}', r'g_previousMessageHandler = nullptr;'):
         rest = re.sub(pat, '', rest, count=1)
     need(rest.strip() == '', 'restorePreviousMessageHandler: only the recognised statements (left over: %r)' % rest.strip())
+    # object lifetime: which logger the static handler forwards to, and what ~Logger does to the globals
+    need(re.match(r'\s*g_activeLogger\.storeRelease\(this\);', bi), 'install: g_activeLogger = this, first')
+    bh = sq(body_after(s, r'void Logger::messageHandler\([^)]*\)\s*\{', 'Logger::messageHandler'))
+    need(re.fullmatch(r'\s*auto (\w+) = g_activeLogger\.loadAcquire\(\); if \(!\1\) return; \1->processMessage\(type, context, message\);\s*', bh),
+         'messageHandler: forwards to g_activeLogger, drops the message when there is none (found %r)' % bh.strip())
+    bd = sq(body_after(s, r'Logger::~Logger\(\)\s*\{', 'Logger::~Logger')).strip()
+    if bd == 'g_activeLogger.testAndSetOrdered(this, nullptr);':
+        dtor_active, dtor_saved = True, False
+    elif bd == 'if (g_activeLogger.testAndSetOrdered(this, nullptr)) { g_previousMessageHandler = nullptr; }':
+        dtor_active, dtor_saved = True, True      # the active logger's destructor also forgets the handler to reinstate
+    elif bd == '':
+        dtor_active, dtor_saved = False, False
+    else:
+        raise AnchorError('ANCHOR NOT FOUND: ~Logger: what the destructor does to g_activeLogger / g_previousMessageHandler (found %r)' % bd)
+    need('g_previousMessageHandler' not in re.sub(r'void Logger::(installMessageHandler|restorePreviousMessageHandler)\(\)\s*\{', '', s)
+         .replace(bi, '').replace(br, '').replace(bd, '').replace('QtMessageHandler g_previousMessageHandler = nullptr;', ''),
+         'g_previousMessageHandler is touched only by install / restore / ~Logger')
     return ('Definition src_inst : inst_src := {| n_save_unless_own := %s; n_restore_guard := %s;\n'
-            '  n_putback_foreign := %s; n_clear_saved := %s |}.\n') % (cbool(save_unless_own), cbool(guard), cbool(putback), cbool(clear))
+            '  n_putback_foreign := %s; n_clear_saved := %s;\n  n_dtor_clears_active := %s; n_dtor_clears_saved := %s |}.\n') % (
+                cbool(save_unless_own), cbool(guard), cbool(putback), cbool(clear), cbool(dtor_active), cbool(dtor_saved))
 
 
 def generate():
